@@ -11,7 +11,7 @@
      C01_engine_partial          : that each engine evaluates a plan as lib/PlanSem.v reads it;
      C01_error_bound_partial     : the floating-point error bound (small multiple of eps x conditioning). *)
 From Coq Require Import Reals String List Lra.
-From TT Require Import lib.Stats lib.Plan lib.PlanSem model.ReadPlan proofs.C01_plans proofs.C01_denote.
+From TT Require Import lib.Stats lib.Plan lib.PlanSem model.ReadPlan proofs.C01_plans proofs.C01_denote proofs.C01_eqc.
 Import ListNotations.
 Local Open Scope R_scope.
 
@@ -99,3 +99,10 @@ Print Assumptions C01_statistics_are_offset_free.
 Print Assumptions C01_other_variants_irrelevant.
 Print Assumptions C01_plan_denotes_exact_statistics.
 Print Assumptions C01_one_row_per_variant.
+
+(* the tie: a captured plan is compared with model/ReadPlan.plan_of_spec up to the order of the operands of + and *
+   (lib/Plan.plan_eqc, evaluated by vm_compute on every run); plans that compare equal denote the same transformation
+   of every table, so the theorems above hold for the captured plan itself *)
+Theorem C01_plan_comparison_is_sound p q tbl : plan_eqc p q = true -> run_plan p tbl = run_plan q tbl.
+Proof. exact (plan_eqc_sound p q tbl). Qed.
+Print Assumptions C01_plan_comparison_is_sound.
